@@ -96,6 +96,18 @@ def queries(tier):
             for o1, o2 in itertools.product(("and", "or"), repeat=2):
                 out.append((sel, (o1, ("atom", a), (o2, ("atom", b), ("atom", c))), "an"))
                 out.append((sel, (o1, (o2, ("atom", a), ("atom", b)), ("atom", c)), "an"))
+    # the SECOND variable constrained by a comparison with a literal - alone, or next to a join / a comparison between the
+    # two variables (appended after all other queries so that the batches of the older families stay the same)
+    for sel, ycmp in ((H, ("cmpy", H, C, ("owner", "name"), "eq", "h0")), (H, ("cmpy", H, I, ("n",), "lt", 1)),
+                      (I, ("cmpy", I, I, ("n",), "gt", 0)), (I, ("cmpy", I, I, ("s",), "eq", "s0"))):
+        atoms = atoms_for(sel)
+        partners = [a for a in atoms if (a[0] == "join" and a[3] == ycmp[2]) or (a[0] == "cmp2" and a[4] == ycmp[2])]
+        partners += [a for a in atoms if a[0] == "cmp"][:2]
+        for a in partners:
+            for l, r in ((("atom", a), ("atom", ycmp)), (("atom", ycmp), ("atom", a))):
+                for op in ("and", "or"):
+                    out.append((sel, (op, l, r), "an"))
+                out.append((sel, ("and", l, r), "the"))
     # constructs the translator has no case for
     for kind in ("not", "exists", "forall", "index", "call", "predicate", "flatten", "setof", "nested"):
         out.append((H, ("unsupported", kind), "an"))
@@ -187,13 +199,15 @@ def ref_atom(a, x, y):
         return walk(x, a[2]) is walk(y, a[4])
     if k == "cmp2":
         return bool(OPS[a[3]](walk(x, a[2]), walk(y, a[5])))
+    if k == "cmpy":
+        return bool(OPS[a[4]](walk(y, a[3]), lit(a[5])))
     raise ValueError(a)
 
 
 def second_type(q):
     if q[0] == "atom":
         a = q[1]
-        return a[3] if a[0] == "join" else a[4] if a[0] == "cmp2" else None
+        return a[3] if a[0] == "join" else a[4] if a[0] == "cmp2" else a[2] if a[0] == "cmpy" else None
     if q[0] in ("and", "or"):
         return second_type(q[1]) or second_type(q[2])
     return None
@@ -245,6 +259,8 @@ def build_query(sel, q, quant, objs_by_type, in_memory):
             return attr(x, a[2]) == attr(y, a[4])
         if k == "cmp2":
             return getattr(operator, a[3])(attr(x, a[2]), attr(y, a[5]))
+        if k == "cmpy":
+            return getattr(operator, a[4])(attr(y, a[3]), lit(a[5]))
         raise ValueError(a)
 
     def Q(q):
@@ -444,6 +460,8 @@ def show(q):
             return f"x.{'.'.join(a[2])} == y:{a[3]}.{'.'.join(a[4])}"
         if a[0] == "cmp2":
             return f"x.{'.'.join(a[2])} {a[3]} y:{a[4]}.{'.'.join(a[5])}"
+        if a[0] == "cmpy":
+            return f"y:{a[2]}.{'.'.join(a[3])} {a[4]} {a[5]!r}"
     if q[0] in ("and", "or"):
         return f"{q[0]}_({show(q[1])}, {show(q[2])})"
     return repr(q)
@@ -464,7 +482,7 @@ def classify(case, failure):
 
 def cluster_key(case, f):
     tier, di, sel, q, quant = f.case
-    return (f.kind, tuple(sorted({(a[0],) + ((a[1], a[4]) if a[0] == "cmp2" else (a[1], a[2][-1])) for a in atoms_in(q)})) if q[0] != "unsupported" else q)
+    return (f.kind, tuple(sorted({(a[0],) + ((a[1], a[4]) if a[0] == "cmp2" else (a[1], a[2], a[3][-1]) if a[0] == "cmpy" else (a[1], a[2][-1])) for a in atoms_in(q)})) if q[0] != "unsupported" else q)
 
 
 def finish(run):
